@@ -11,9 +11,13 @@ URL_ALLOWED_PUNCT = set(b"-._~:/@\\")
 
 
 def local_tables(f):
-    """Constant arrays with initialiser lists declared in function f: name -> (VarDecl, [int values])."""
+    """Constant arrays with initialiser lists used by function f - declared in it or at file scope and referenced
+    by it: name -> (VarDecl, [int values])."""
     out = {}
-    for n in walk(f.body):
+    used_globals = {x['_ref'][2] for x in walk(f.body) if x.get('kind') == 'DeclRefExpr' and (x.get('_ref') or ('',))[0] == 'global'}
+    decls = [n for n in walk(f.body) if n.get('kind') == 'VarDecl'] + \
+            [g for nm, g in f.unit.globals.items() if nm in used_globals]
+    for n in decls:
         if n.get('kind') == 'VarDecl' and '[' in qtype(n):
             init = var_init(n)
             if init is None or strip(init).get('kind') != 'InitListExpr':
@@ -415,6 +419,18 @@ def byte_pred(prog, f, e, env, tables):
         if nm in CTYPE_FN and args:
             c = byte_pred(prog, f, args[0], env, tables)
             return None if c is None else int(CTYPE_MASK[CTYPE_FN[nm]](c & 0xFF))
+        tgt = prog.resolve_name(f.unit, nm) if nm else None
+        if tgt is not None and nm not in CTYPE_FN:
+            # a small pure helper of the repository (e.g. `static inline bool is_safe(unsigned char c)`): evaluated case by
+            # case on its loop-free CFG with the same byte models for <ctype.h> and strchr
+            from .interp import run_function
+            vals = [byte_pred(prog, f, a, env, tables) for a in args]
+            if any(v is None or isinstance(v, tuple) for v in vals):
+                return None
+            stubs = {}
+            for cn, mk in CTYPE_FN.items():
+                stubs[cn] = (lambda m: (lambda v, t: int(CTYPE_MASK[m]((v[0] or 0) & 0xFF))))(mk)
+            return run_function(prog, tgt, vals, stubs)
         if nm in ('strchr', 'memchr', 'index') and len(args) >= 2:
             st = _string_of(prog, f, args[0])
             c = byte_pred(prog, f, args[1], env, tables)
